@@ -76,6 +76,15 @@ def run(chk):
                     if "params" in r:
                         j["params"] = mmv.value(r["params"], 1, 0, 1)
                     env.append((names[0], j, {"jsonrpc", "method"} | ({"params"} if "params" in r else set())))
+            # every other class that carries envelope attributes (the generic error envelope): jsonrpc / method always written
+            seen_env = {c for c, _j, _k in env}
+            for cname, fields in sorted((pkg.get("class_fields") or {}).items()):
+                if cname in seen_env or cname in mmv.S:
+                    continue
+                wires = {w for w in fields}
+                if "jsonrpc" in wires or "method" in wires:
+                    # "+": at least these keys (what else such a class always writes is not the envelope clause's business)
+                    env.append((cname, {"id": 1} if "id" in wires else {}, {"+"} | ({"jsonrpc"} & wires) | ({"method"} & wires) | ({"id"} & wires)))
             for c, j, keys in env:
                 cases.append({"target": c, "input": j, "kind": "envelope"})
                 meta.append((c, "<envelope>", None, "minimal", sorted(keys)))
@@ -103,7 +112,7 @@ def run(chk):
             continue
         out = r["unstr"]
         if m[1] == "<envelope>":
-            if sorted(out) != m[4]:
+            if ("+" in m[4] and not (set(m[4]) - {"+"} <= set(out))) or ("+" not in m[4] and sorted(out) != m[4]):
                 witness = witness or {"class": c["target"], "property": "<envelope>", "json": c["input"], "expected_keys": m[4], "observed_keys": sorted(out)}
         else:
             has = m[1] in out
